@@ -60,13 +60,17 @@ def sh(cmd, timeout=None, cwd=None, env=None, input=None):
 
 
 class _Lock:
-    def __init__(self, name):
+    """exclusive for regenerate + make; shared while scratch files are evaluated against the
+    compiled project, so that a concurrent check cannot rebuild the .vo files underneath"""
+
+    def __init__(self, name, shared=False):
         os.makedirs(BUILD, exist_ok=True)
         self.path = os.path.join(BUILD, name)
+        self.shared = shared
 
     def __enter__(self):
-        self.f = open(self.path, "w")
-        fcntl.flock(self.f, fcntl.LOCK_EX)
+        self.f = open(self.path, "a")
+        fcntl.flock(self.f, fcntl.LOCK_SH if self.shared else fcntl.LOCK_EX)
         return self
 
     def __exit__(self, *a):
@@ -194,8 +198,9 @@ def coq_eval_many(prop, files, timeout=900):
     """files: list of (name, text).  Compiled in parallel.  Returns list of (ok, out)."""
     if not files:
         return []
-    with multiprocessing.get_context("fork").Pool(min(NPROC, len(files))) as pool:
-        return pool.starmap(coq_eval, [(prop, n, t, timeout) for n, t in files])
+    with _Lock("coq.lock", shared=True):
+        with multiprocessing.get_context("fork").Pool(min(NPROC, len(files))) as pool:
+            return pool.starmap(coq_eval, [(prop, n, t, timeout) for n, t in files])
 
 
 _NATLIST = re.compile(r"=\s*\[([^\]]*)\]\s*:\s*list nat", re.S)
